@@ -259,6 +259,8 @@ func (p *parser) parseObjectPropertyKey() (string, string) {
 		// null, false, class, etc.
 		if matchIdentifier.MatchString(literal) {
 			value = literal
+		} else {
+			p.error(idx, errUnexpectedToken, tkn)
 		}
 	}
 	return literal, value
